@@ -293,6 +293,9 @@ def run(ctx, rep):
     resolved_limit_forms(ctx, rep, 'R05.l')
     group_partition_count_forms(ctx, rep, 'R05.l')
 
+    # ------------------------------------------------------------ R05.p replay consumes the whole journalled command
+    replay_consumes_payload(ctx, rep, 'R05.p')
+
     # ------------------------------------------------------------ R05.e start-up deletes only what replay does not know
     rep.rule('R05.e', 'start-up removes a data directory only on the "not found in replayed state" edge', floor=2, analysis='A3')
     n = 0
@@ -377,3 +380,71 @@ def _command_codes(ctx):
         if v in out:
             out[k] = out[v]
     return out
+
+
+REPLAY_UNUSED = {('ChangePassword', 'current_password')}   # blanked by the handler before journalling: nothing to replay
+# state field <- payload field of another name (confirmed by reading SystemState::init)
+REPLAY_RENAMES = {('id', 'stream_id'), ('id', 'topic_id'), ('id', 'group_id'), ('password_hash', 'password'), ('password_hash', 'new_password'),
+                  ('token_hash', 'hash'), ('expiry_at', 'expiry')}
+
+
+def replay_consumes_payload(ctx, rep, rid):
+    """Every field of a journalled command is read by the replay arm of its variant (what the runtime applied from the
+    command and the replay ignores is lost by a restart), and a state field copied from the payload takes the payload
+    field of its own name."""
+    import re as _re
+    import forms as forms_
+    rep.rule(rid, 'replay consumes the whole journalled command: the arm of every EntryCommand variant in SystemState::init reads every field of its payload, and a replayed state field copied from the payload takes the payload field of its own name (a setting the run time applied and the replay skips reverts at the next restart)', floor=70, analysis='A6/A9')
+    INIT = 'server::state::system::SystemState::init'
+    b = ctx.fn_body(INIT)
+    sw = enum_switches(b, {EC})
+    if not sw:
+        rep.anchor_lost(rid, 'match on EntryCommand in SystemState::init')
+        return
+    variants = {v['name']: v for v in ctx.facts.adts[EC]['variants']}
+    seen = set()
+    for bb, t, ty in sw:
+        for v, blocks in arm_regions(b, bb).items():
+            vn = variant_name(ctx, EC, v) if v != 'else' else None
+            if vn is None or vn not in variants or not blocks:
+                continue
+            pay = variants[vn]['fields'][0][1]
+            rec = ctx.facts.adts.get(pay)
+            if not rec:
+                continue
+            used = set()
+            for x in blocks:
+                for adt, f, ln in block_field_accesses(b, x, reads_only=True):
+                    if adt == pay:
+                        used.add(f)
+            seen.add(vn)
+            for f, _ty, _pub in rec['variants'][0]['fields']:
+                if (vn, f) in REPLAY_UNUSED:
+                    continue
+                ok = f in used
+                rep.ob(rid, INIT, '%s.%s replayed' % (vn, f), ok, b.where(bb), None if ok else
+                       'the replay of %s never reads `%s` of the journalled command: what the run time did with it is not reproduced after a restart' % (vn, f))
+    for vn in sorted(set(variants) - seen):
+        rep.ob(rid, INIT, '%s arm' % vn, False, None, 'no replay arm found for %s' % vn)
+    # same-name copies
+    pat = _re.compile(r' as (\w+)\)\.0\.(?:command\.)?(\w+)\)*$')
+    for adt in ('TopicState', 'StreamState', 'UserState', 'ConsumerGroupState', 'PersonalAccessTokenState', 'PartitionState'):
+        A = 'server::state::system::' + adt
+        rec = ctx.facts.adts.get(A)
+        if not rec:
+            continue
+        sites = []
+        for f, _ty, _pub in rec['variants'][0]['fields']:
+            for fnn, bd, bb_, ln, form in forms_.field_assignments(ctx, A, f):
+                sites.append((f, form, '%s:%s' % (bd.file, ln)))
+        for ag, where in forms_.aggregate_forms(ctx, INIT, A):
+            for f, form in ag.items():
+                sites.append((f, form, where))
+        for f, form, where in sites:
+            m = pat.search(form)
+            if not m:
+                continue
+            g = m.group(2)
+            ok = f == g or (f, g) in REPLAY_RENAMES
+            rep.ob(rid, INIT, '%s.%s <- %s.%s' % (adt, f, m.group(1), g), ok, where, None if ok else
+                   'the replayed `%s.%s` is copied from `%s.%s` — a payload field of another meaning' % (adt, f, m.group(1), g))
